@@ -28,7 +28,7 @@ package sumdb
 //@   // proof wiring (C18 part 2): the empty proof exactly for a zero old size; otherwise one ProveTree(to, from) over a
 //@   // tile reader for the tree (to.Size, to.Hash), and as many hashes returned as ProveTree produced
 //@   ensures[C18.fp] from.Size == 0 ==> err == nil && p != nil && len(p) == 0 && n_pt == old(n_pt)
-//@   ensures[C18.fp] from.Size != 0 && to.Size <= 4611686018427387904 ==> n_pt == old(n_pt) + 1 && pt_t == to.Size && pt_n == from.Size && thr_n == to.Size
+//@   ensures[C18.fp] from.Size != 0 && to.Size <= 4611686018427387903 ==> n_pt == old(n_pt) + 1 && pt_t == to.Size && pt_n == from.Size && thr_n == to.Size
 //@   invariant#1 0 <= $i && $i <= len(proof) && r != nil && len(r) == $i
 //@   invariant#1 n_pt == old(n_pt) + 1 && pt_t == to.Size && pt_n == from.Size && thr_n == to.Size
 //@   decreases#1 len(proof) - $i
